@@ -41,12 +41,13 @@ LIB_AXIOMS = {
     'next': 'next(<genexp over dict items>, default) returns the element for some item satisfying the conditions, or default if none does',
     'list.append': 'list.append adds at the end',
     'open': 'open()/aiofiles.open() used as a context manager yields a file object or raises OSError; the file is closed on exit',
+    'async_timeout': 'A-TIMEOUTCTX: inside `async with async_timeout.timeout(t)` an await is cancelled with asyncio.TimeoutError once t seconds have passed; the block is left within max(t,0) seconds',
     'os': 'os.fstat/os.listdir/os.path.isdir/os.getlogin/socket.gethostname return unconstrained values (or raise OSError)',
 }
 
 
 # ghost fields that library handlers update directly (needed for the static write sets of loops)
-LIB_WRITES = {'time.time': ['now', 'cpu'], 'open': ['files_opened', 'fin', 'fpos'], 'aiofiles.open': ['files_opened', 'fin', 'fpos']}
+LIB_WRITES = {'async_timeout.timeout': ['tctx', 'tctx_on', 'now'], 'time.time': ['now', 'cpu'], 'open': ['files_opened', 'fin', 'fpos'], 'aiofiles.open': ['files_opened', 'fin', 'fpos']}
 
 
 class World(object):
@@ -1440,6 +1441,31 @@ def sp_isdir(w, ex, node):
     return VBool(ISDIR(p.term))
 
 
+def bi_async_timeout(w, ex, args, kwargs, node):
+    """async_timeout.timeout(t): the body is cancelled (asyncio.TimeoutError at its current await) once t seconds have passed,
+    so on every exit of the block at most max(t, 0) seconds have elapsed (A-TIMEOUTCTX); t None = no limit."""
+    w.use('async_timeout')
+    t = args[0] if args else NONE
+    state = {}
+
+    def enter():
+        G = ex.G
+        state['now0'] = G.fields['now'].term
+        state['saved'] = (G.fields['tctx'], G.fields['tctx_on'])
+        G.fields['tctx'] = t if isinstance(t, (VOpt, VNone)) else (VReal(to_real(t)) if not isinstance(t, VReal) else t)
+        G.fields['tctx_on'] = VBool(True)
+        return NONE
+
+    def exit_(exc):
+        G = ex.G
+        G.fields['tctx'], G.fields['tctx_on'] = state['saved']
+        n, v = as_opt(t)
+        if v is not None:
+            lim = z3.If(to_real(v) > 0, to_real(v), 0)
+            ex.assume(z3.Or(n, G.fields['now'].term - state['now0'] <= lim))
+    return VCtx(enter, exit_)
+
+
 def bi_namedtuple(w, ex, args, kwargs, node):
     return VClass('lib:namedtuple')
 
@@ -1452,7 +1478,7 @@ BUILTINS = {
     'len': bi_len, 'min': _minmax(True), 'max': _minmax(False), 'int': bi_int, 'bool': bi_bool, 'bytes': bi_bytes,
     'bytearray': bi_bytearray, 'isinstance': bi_isinstance, 'sum': bi_sum, 'hasattr': bi_hasattr, 'ord': bi_ord, 'str': bi_str,
     'struct.pack': bi_struct_pack, 'struct.unpack': bi_struct_unpack, 'struct.calcsize': bi_struct_calcsize,
-    'time.time': bi_time_time, 'contextmanager': bi_contextmanager, 'socket.gethostname': bi_gethostname, 'os.fstat': bi_fstat, 'namedtuple': bi_namedtuple, 'open': bi_open,
+    'time.time': bi_time_time, 'contextmanager': bi_contextmanager, 'socket.gethostname': bi_gethostname, 'os.fstat': bi_fstat, 'namedtuple': bi_namedtuple, 'open': bi_open, 'async_timeout.timeout': bi_async_timeout,
     'aiofiles.open': bi_open, 'os.path.isdir': bi_isdir, 'os.listdir': bi_listdir, 'os.path.join': bi_pathjoin,
 }
 
